@@ -37,7 +37,7 @@ CHECKS = {
             "table agreement by constant propagation + iteration typestate + who-may tables", "5 C05",
             TB + "Declined: 'exactly num_concurrent running whenever idle' as a count. F1 shared (known finding)."),
     "C06": ("Two-phase cancel (no look-up or raising step reachable after a Task.cancel), look-up table decided by abstract interpretation over the four id states "
-            "(running/cancelled/ended/unknown -> return / AlreadyCancelled / AlreadyEnded / TaskNotFound<=InvalidTaskID), who-may-cancel table, cancelled tasks are exactly the looked-up list; an id names one task (id discipline shared with C11); NO-SHARED-TASK (no pool coroutine awaits a task kept in an attribute); NO-SWALLOW (no public coroutine of the pool absorbs a cancellation delivered at its own suspension points; F9 fixed); FORGET-ONLY-GATHERED in gather_and_close as a premise (a running task is found while it is filed).",
+            "(running/cancelled/ended/unknown -> return / AlreadyCancelled / AlreadyEnded / TaskNotFound<=InvalidTaskID), who-may-cancel table, cancelled tasks are exactly the looked-up list; an id names one task (id discipline shared with C11); NO-SHARED-TASK (no pool coroutine awaits a task kept in an attribute); NO-SWALLOW (no public coroutine of the pool absorbs a cancellation delivered at its own suspension points; F9 fixed); FORGET-ONLY-GATHERED in gather_and_close as a premise (a running task is found while it is filed); what a look-up raises leaves cancel() - no handler around _get_running_task.",
             "CFG reachability + abstract interpretation of the look-up over 4 cases + who-may-call", "5 C06",
             TB + "Declined: 'observes one CancelledError at its next suspension point' (Task semantics). F1 shared."),
     "C07": ("cancel_group validates first and raises only TaskGroupNotFound; cancel_all returns only with an empty table and hands every entry to the helper; spawners cancelled before "
@@ -64,7 +64,7 @@ CHECKS = {
             "skip-on-raise typestate, return_exceptions wiring into every task gather, FORGET-ONLY-GATHERED in gather_and_close, only user steps may raise in the life-cycle functions (registry-integrity lemma checked); the cancel callback runs with its task already filed as cancelled; SNAPSHOT-FRESH iterator clause (F11, fixed).",
             "typestate + exceptional-edge reachability + may-raise analysis", "5 C12", TB + "Declined: 'every other task proceeds exactly as if it had succeeded' (behavioural)."),
     "C13": ("SNAPSHOT-FORGET (removals after a suspension keyed by a pre-await snapshot whose tasks were gathered, or guarded by done()), flush has no effect on running tasks/other "
-            "state (a rebuilt registry is read from the attribute, never through a reference taken before the wait), exit dominated by the forgetting of both registries, return_exceptions wiring, no other raising step.",
+            "state (a rebuilt registry is read from the attribute, never through a reference taken before the wait), exit dominated by the forgetting of both registries, return_exceptions wiring, no other raising step; ITERATE-ACROSS-SUSPENSION (no loop of flush iterates a registry directly while its body suspends).",
             "SNAPSHOT-FORGET data-flow rule + effect closure + dominance", "5 C13", TB + "Declined: overlapping flushes as a temporal statement (covered per call by the snapshot rule)."),
     "C14": ("Idiom-based: ids drawn from the reversed running registry, prefix bounded by num with the test before the append, delegated once to cancel(*ids), same list returned, "
             "stop_all == stop(num_running); the bound is the num parameter itself (`num or x` makes 0 mean all); also islice / slice / takewhile forms and helpers returning the list; "
